@@ -32,17 +32,33 @@ func VerifEvalBuildC38(p *Parser, pkg *core.Package, code string) (map[string]an
 }
 
 // VerifRecordSubincludesC38 replaces the native code of subinclude() by a recorder of the (flattened) arguments
-// of every call, in order. Nothing is loaded.
+// of every call, in order, each with what the call could see at that moment: the targets the package has so far (a
+// local label must be defined before the subinclude) and the calling scope's variables. Nothing is loaded.
 func VerifRecordSubincludesC38(p *Parser, rec func(label string)) {
 	setNativeCode(p.interpreter.scope, "subinclude", func(s *scope, args []pyObject) pyObject {
+		var names []string
+		if s.pkg != nil {
+			for _, t := range s.pkg.AllTargets() {
+				names = append(names, t.Label.Name)
+			}
+		}
+		sort.Strings(names)
+		var vars []string
+		for k, v := range s.locals {
+			if k != "CONFIG" {
+				vars = append(vars, fmt.Sprintf("%s=%v", k, verifPlainC38(v)))
+			}
+		}
+		sort.Strings(vars)
+		ctx := fmt.Sprintf(" @ targets=%v vars=%v", names, vars)
 		for _, arg := range args {
 			switch a := arg.(type) {
 			case pyList:
 				for _, e := range a {
-					rec(fmt.Sprintf("%v", verifPlainC38(e)))
+					rec(fmt.Sprintf("%v", verifPlainC38(e)) + ctx)
 				}
 			default:
-				rec(fmt.Sprintf("%v", verifPlainC38(arg)))
+				rec(fmt.Sprintf("%v", verifPlainC38(arg)) + ctx)
 			}
 		}
 		return None
